@@ -42,7 +42,7 @@ class C09(Check):
             if first_only and found:
                 break
             l, h = stack.pop()
-            j = {"flavour": job["flavour"], "kind": job["kind"], "args": dict(a, **{"from": l, "to": h}), "timeout": 4 if h - l == 1 else 8}
+            j = {"flavour": job["flavour"], "kind": job["kind"], "args": dict(a, **{"from": l, "to": h}), "timeout": (4 if h - l == 1 else 8) * (3 if job["flavour"].startswith("par") else 1)}
             r = self.pool.run_one(j)
             budget -= 1
             if r["ok"]:
@@ -103,7 +103,7 @@ class C09(Check):
         self.stats["objects"] = len(counts)
         jobs = []
         # quick: a rotating third of the enumeration per object (by seed); thorough: all
-        prio = []
+        prio, prio_par = [], []
         for o, (nf, nbytes, nsmoke, npairs) in counts.items():
             stale = (o + 1) % NMENU
             # the smoke set and the coupled-array pairs run completely in every pass, first
@@ -111,6 +111,13 @@ class C09(Check):
                 for s0 in range(0, nsmoke, CHUNK):
                     a = {"obj": o, "stale": stale, "set": "smoke", "from": s0, "to": min(nsmoke, s0 + CHUNK), "precision": prec}
                     prio.append({"flavour": "ser-asan", "kind": "c09", "args": a, "timeout": 8})
+                if prec == 64:
+                    # the same set through the parallel build with every size threshold divided by 4096, so that the
+                    # validation passes (all_of / IsManifold / sorts) of these small objects run their parallel code
+                    for s0 in range(0, nsmoke, 16):
+                        a = {"obj": o, "stale": stale, "set": "smoke", "from": s0, "to": min(nsmoke, s0 + 16), "precision": prec,
+                             "W": rng.choice([1, 2, 4]), "thr": 4096, "seed": rng.randrange(1, 1 << 30)}
+                        prio_par.append({"flavour": "par-asan", "kind": "c09", "args": a, "timeout": 20})
                 if prec == 64 or o % 2 == 0:
                     for s0 in range(0, npairs, CHUNK):
                         a = {"obj": o, "stale": stale, "set": "pairs", "from": s0, "to": min(npairs, s0 + CHUNK), "precision": prec}
@@ -125,7 +132,7 @@ class C09(Check):
                     fl = "par-asan" if (s // CHUNK) % 5 == 4 else "ser-asan"
                     a = {"obj": o, "stale": stale, "from": s, "to": min(nf, s + CHUNK), "precision": prec}
                     if fl == "par-asan":
-                        a.update({"W": 2, "thr": 64, "seed": rng.randrange(1, 1 << 30)})
+                        a.update({"W": rng.choice([1, 2, 4]), "thr": rng.choice([64, 4096]), "seed": rng.randrange(1, 1 << 30)})
                     jobs.append({"flavour": fl, "kind": "c09", "args": a, "timeout": 8})
             # OBJ stream faults (small objects: all bytes; larger: strided windows)
             if nbytes <= 2200 or not quick:
@@ -151,10 +158,11 @@ class C09(Check):
                 fl.append("%s:%d,%d,%d,0" % (rng.choice(kinds), rng.randrange(10), rng.randrange(100000), rng.randrange(64)))
             jobs.append({"flavour": rng.choice(["ser-asan", "ser-asan", "par-asan"]), "kind": "c09",
                          "args": {"obj": o, "stale": rng.randrange(NMENU), "faults": ";".join(fl), "precision": rng.choice([64, 64, 32]),
-                                  "W": 2, "thr": 64, "seed": rng.randrange(1, 1 << 30)}, "timeout": 8, "multi": True})
+                                  "W": rng.choice([1, 2, 4]), "thr": rng.choice([64, 4096]), "seed": rng.randrange(1, 1 << 30)}, "timeout": 8, "multi": True})
         rng.shuffle(jobs)
-        jobs = prio + jobs
+        jobs = prio + prio_par + jobs
         self.stats["smoke_range_jobs"] = len(prio)
+        self.stats["smoke_range_jobs_parallel_build"] = len(prio_par)
         results = self.pool.run_all(jobs, deadline=self.deadline)
         samples = []
         ngroup = {}
